@@ -13,9 +13,13 @@ modules, compare symbol by symbol, `completed`, import twice; and the export-ord
 """
 from __future__ import annotations
 
+import contextlib
+import functools
 import json
 import os
 import random
+import signal
+import time
 from collections import Counter
 from typing import Any
 
@@ -81,6 +85,45 @@ def py_flatten(f: Forest, prefix: str = '') -> dict[str, str]:
 		out[p] = k
 		out.update(py_flatten(cs, p))
 	return out
+
+
+class CaseTimeout(BaseException):
+	"""a real-code call (or a whole stream) used up its budget; BaseException so that no `except Exception` of the code under test swallows it"""
+
+
+@contextlib.contextmanager
+def time_limit(seconds: float):
+	"""wall budget for the enclosed calls (SIGALRM, main thread); budgets nest: the tighter one wins and the outer one is re-armed on exit"""
+	def on_alarm(signum: int, frame: Any) -> None:
+		raise CaseTimeout(f'budget of {seconds:.0f}s used up')
+	t0 = time.time()
+	outer = signal.getitimer(signal.ITIMER_REAL)[0]
+	old = signal.signal(signal.SIGALRM, on_alarm)
+	signal.setitimer(signal.ITIMER_REAL, min(seconds, outer) if outer > 0 else seconds)
+	try:
+		yield
+	finally:
+		signal.setitimer(signal.ITIMER_REAL, 0)
+		signal.signal(signal.SIGALRM, old)
+		if outer > 0:
+			signal.setitimer(signal.ITIMER_REAL, max(outer - (time.time() - t0), 0.05))
+
+
+def stream_deadline(quick: float, thorough: float):
+	"""a correspondence stream that does not finish within its wall deadline is reported as a disagreement of that stream, never a hang"""
+	def deco(fn: Any) -> Any:
+		@functools.wraps(fn)
+		def run(ctx: Ctx) -> Stream:
+			limit = ctx.scale(int(quick), int(thorough))
+			try:
+				with time_limit(limit):
+					return fn(ctx)
+			except CaseTimeout:
+				st = Stream(fn.__name__.replace('stream_', '').replace('_', '-'))
+				st.disagreements.append({'case': 'deadline', 'real': f'the stream did not finish within {limit}s (a real-code call or the model driver hangs)', 'model': ''})
+				return st
+		return run
+	return deco
 
 
 def exc_text(e: BaseException, limit: int = 200) -> str:
@@ -234,6 +277,7 @@ def stub_classes(rng: random.Random, traits: Any, n: int) -> tuple[dict[str, Any
 # stream: expand-stub
 
 
+@stream_deadline(120, 900)
 def stream_expand_stub(ctx: Ctx) -> Stream:
 	import rogw.tranp.lang.sequence as seqs
 	rng = ctx.sub_rng('expand-stub')
@@ -330,6 +374,7 @@ def valid_write_paths(t: INode, prefix: str = '') -> list[str]:
 	return out
 
 
+@stream_deadline(120, 900)
 def stream_identity_stub(ctx: Ctx) -> Stream:
 	import rogw.tranp.lang.sequence as seqs
 	rng = ctx.sub_rng('identity-stub')
@@ -391,6 +436,7 @@ def stream_identity_stub(ctx: Ctx) -> Stream:
 # stream: dsn (ModuleDSN.full_joined / parsed, DSN.join)
 
 
+@stream_deadline(120, 900)
 def stream_dsn(ctx: Ctx) -> Stream:
 	from rogw.tranp.dsn.dsn import DSN
 	from rogw.tranp.dsn.module import ModuleDSN
@@ -458,6 +504,7 @@ def mutate_flat(rng: random.Random, d: dict[str, str], keys: list[str]) -> dict[
 	return dict(items)
 
 
+@stream_deadline(120, 900)
 def stream_rebuild_stub(ctx: Ctx) -> Stream:
 	from rogw.tranp.semantics.reflection.db import SymbolDB
 	from rogw.tranp.semantics.reflection.serializer import ReflectionSerializer
@@ -521,6 +568,7 @@ def mod_arg(m: str | None) -> str:
 	return 'None' if m is None else hx(m)
 
 
+@stream_deadline(120, 900)
 def stream_order_stub(ctx: Ctx) -> Stream:
 	from rogw.tranp.semantics.reflection.db import SymbolDB
 	rng = ctx.sub_rng('order-stub')
@@ -729,6 +777,7 @@ def case_table_stub(rng: random.Random, i: int) -> tuple[dict[str, Any], list[st
 	return {'mode': mode, 'entries': len(data), 'ordered': ordered, 'import': real[ops.index('\t'.join(ops_import))]}, ops, real
 
 
+@stream_deadline(120, 900)
 def stream_table_stub(ctx: Ctx) -> Stream:
 	rng = ctx.sub_rng('table-stub')
 	cases = [case_table_stub(rng, i) for i in range(ctx.scale(120, 1500))]
@@ -766,7 +815,28 @@ def search_stub_laws(ctx: Ctx) -> SearchResult:
 			res.findings.append(Finding(key=key, what=what, replay=replay))
 
 	traits = StubTraits()
-	for i in range(ctx.scale(600, 6000)):
+	stop_at = time.time() + ctx.scale(120, 900)
+	total = ctx.scale(600, 6000)
+	for i in range(total):
+		if time.time() > stop_at:
+			hist[f'deadline:skipped'] += total - i
+			res.note = f'stopped at its wall deadline after {i} of {total} cases'
+			break
+		try:
+			with time_limit(20):
+				_stub_law_case(ctx, rng, traits, i, res, seen, found)
+		except CaseTimeout:
+			found('stub:timeout', f'case {i} did not finish within 20s', {'case': i})
+	res.distinct = len(seen)
+	res.histogram = dict(hist) or {'ok': res.cases}
+	return res
+
+
+def _stub_law_case(ctx: Ctx, rng: random.Random, traits: Any, i: int, res: SearchResult, seen: set[str], found: Any) -> None:
+	import rogw.tranp.lang.sequence as seqs
+	from rogw.tranp.semantics.reflection.db import SymbolDB
+	from rogw.tranp.semantics.reflection.serializer import ReflectionSerializer
+	if True:
 		res.cases += 1
 		entries, nodes = stub_classes(rng, traits, rng.randint(2, 9))
 		keys = list(entries)
@@ -823,7 +893,7 @@ def search_stub_laws(ctx: Ctx) -> SearchResult:
 			found(f'stub:identity:raises:{exc_enum(e)}', exc_text(e, 200), {'iforest': iforest_sexp(fi)})
 		# (c) table laws on a table in dependency order
 		if i % 2:
-			continue
+			return
 		eps = StubEntrypoints()
 		for n in nodes.values():
 			eps.add(n)
@@ -889,9 +959,6 @@ def search_stub_laws(ctx: Ctx) -> SearchResult:
 					found('stub:unload', f'unload({m}) leaves entries or the completed mark', {**rep, 'module': m})
 			except Exception as e:  # noqa: BLE001
 				found(f'stub:table:raises:{exc_enum(e)}', f'{m}: {exc_text(e, 200)}', {**rep, 'module': m})
-	res.distinct = len(seen)
-	res.histogram = dict(hist) or {'ok': res.cases}
-	return res
 
 
 # ---------------------------------------------------------------------------------------------
@@ -1326,6 +1393,10 @@ class Loaded:
 		self.entry = entry
 
 
+LOAD_BUDGET = 60  # seconds per program (a generated program loads in well under a second)
+MODULE_BUDGET = 90  # seconds for all observations and the law on one module
+
+
 def load_programs(ctx: Ctx, stream: str, n_generated: int, real_modules: list[str]):
 	"""yields Loaded (with the app holding the loaded table) for fixed programs, generated programs and real modules"""
 	from rogw.tranp.semantics.reflection.db import SymbolDB
@@ -1348,10 +1419,17 @@ def load_programs(ctx: Ctx, stream: str, n_generated: int, real_modules: list[st
 		todo.append(('forward' if gen.forward else 'generated', f'gen#{i}', srcs, entry))
 	for kind, name, srcs, entry in todo:
 		try:
-			app.load(srcs, entry)
-			db = app.resolve(SymbolDB)
-			for _, s in db.items():
-				describe(s)  # resolves the lazy attribute / origin mods; a program tranp cannot type is outside the domain
+			with time_limit(LOAD_BUDGET):
+				app.load(srcs, entry)
+				db = app.resolve(SymbolDB)
+				for _, s in db.items():
+					describe(s)  # resolves the lazy attribute / origin mods; a program tranp cannot type is outside the domain
+		except CaseTimeout:
+			stats[f'{kind}:timeout'] += 1
+			app = MultiApp(ctx.tmpdir())  # the interrupted app is not reused
+			if kind in ('fixed', 'corpus'):
+				yield Loaded(name, None, f'{kind}-load-failed:timeout:loading takes more than {LOAD_BUDGET}s', srcs, entry), stats
+			continue
 		except Exception as e:  # noqa: BLE001
 			stats[f'{kind}:unsupported:{exc_enum(e)}'] += 1
 			if kind in ('fixed', 'corpus'):
@@ -1363,10 +1441,15 @@ def load_programs(ctx: Ctx, stream: str, n_generated: int, real_modules: list[st
 	for m in real_modules:
 		rapp = MultiApp(ctx.tmpdir())
 		try:
-			rapp.load({}, m)
-			db = rapp.resolve(SymbolDB)
-			for _, s in db.items():
-				describe(s)
+			with time_limit(3 * LOAD_BUDGET):
+				rapp.load({}, m)
+				db = rapp.resolve(SymbolDB)
+				for _, s in db.items():
+					describe(s)
+		except CaseTimeout:
+			stats['real:timeout'] += 1
+			yield Loaded(m, None, f'real-load-failed:timeout:loading takes more than {3 * LOAD_BUDGET}s', None, m), stats
+			continue
 		except Exception as e:  # noqa: BLE001
 			stats[f'real:unsupported:{exc_enum(e)}'] += 1
 			yield Loaded(m, None, f'real-load-failed:{exc_enum(e)}:{exc_text(e, 160)}', None, m), stats
@@ -1533,7 +1616,10 @@ def check_module(ld: Loaded, mod: str) -> list[Finding]:
 	out: list[Finding] = []
 	stage = ['describe']
 	try:
-		_check_module(ld, mod, replay, out, stage)
+		with time_limit(MODULE_BUDGET):
+			_check_module(ld, mod, replay, out, stage)
+	except CaseTimeout:
+		out.append(Finding(key=f'{stage[0]}:timeout', what=f'{stage[0]} of {mod} does not finish within {MODULE_BUDGET}s', replay=replay))
 	except Exception as e:  # noqa: BLE001
 		out.append(Finding(key=f'{stage[0]}:raises:{exc_enum(e)}', what=f'{stage[0]} of {mod} raises {exc_enum(e)}: {exc_text(e, 200)}', replay=replay))
 	return out
@@ -1623,6 +1709,7 @@ def real_pass(ctx: Ctx) -> tuple[list[Stream], SearchResult]:
 	inv_broken: list[str] = []
 	inv_cases: list[tuple[Any, list[str], list[str]]] = []
 	n_tables = 0
+	stop_at = time.time() + ctx.scale(300, 1800)  # wall deadline of the pass: programs after it are counted, not run
 	for ld, stats in load_programs(ctx, 'real', ctx.scale(36, 500), REAL_MODULES[:ctx.scale(2, len(REAL_MODULES))]):
 		if ld.app is None:
 			res.cases += 1
@@ -1632,57 +1719,69 @@ def real_pass(ctx: Ctx) -> tuple[list[Stream], SearchResult]:
 				seen_keys.add(key)
 				res.findings.append(Finding(key=key, what=f'{ld.name} no longer loads: {ld.kind}', replay={'program': ld.name, 'sources': ld.sources, 'entry': ld.entry, 'module': ld.entry}))
 			continue
-		db = ld.app.resolve(SymbolDB)
-		ser = ld.app.resolve(IReflectionSerializer)
-		mods = module_keys(db)
-		own = [m for m in mods if m in (ld.sources or {})] if ld.kind != 'real' else [m for m in mods if m not in done]
-		inv_ops: list[str] = []
-		inv_real: list[str] = []
-		for m in own:
-			done.add(m)
-			forests = [obs_forest(s.attrs) for _, s in db.items(m)]
-			depth = max((forest_depth(f) for f in forests), default=0)
-			width = max((forest_width(f) for f in forests), default=0)
-			# correspondence: serialize
-			ops, real = real_symbol_ops(db, ser, m)
-			if ops:
-				ser_cases.append(({'kind': ld.kind, 'depth': depth, 'width': width, 'name': f'{ld.name}:{m}'}, ops, real))
-			# search: the law
-			res.cases += 1
-			fnd = check_module(ld, m)
-			try:
-				inv = invariants_of(db, db.to_json(ser, m), m)
-				inv_ops.append(f't.inv\t{hx(m)}\t{class_ranks(db, m)}')
-				inv_real.append(f"Loaded={'true' if inv['Loaded'] else 'false'} SymOK={'true' if inv['SymOK'] else 'false'}")
-				order_ok = not any(f.key.startswith('order:') for f in fnd)
-				inv_hist[f"SymOK={int(inv['SymOK'])},Loaded={int(inv['Loaded'])},order-law={'holds' if order_ok else 'fails'}"] += 1
-				if inv['Loaded'] and not order_ok:
-					# C14.order says this cannot happen if model = code: report it as a broken tie (the law search reports the failing input)
-					inv_broken.append(f'{ld.name}:{m}')
-			except Exception as e:  # noqa: BLE001
-				inv_hist[f'invariants:raises:{exc_enum(e)}'] += 1
-			for f in fnd:
-				if f.key not in seen_keys:
-					seen_keys.add(f.key)
-					res.findings.append(f)
-			hist[f"{ld.kind}:depth={min(depth, 6)}{'+' if depth >= 6 else ''}:width{'>=10' if width >= 10 else '<10'}:{'+'.join(sorted({f.key for f in fnd})) or 'ok'}"] += 1
-			seen.add(f'{ld.name}:{m}:{len(mods[m])}')
-			if len(res.samples) < 2:
-				res.samples.append({'program': ld.name, 'module': m, 'symbols': len(mods[m]), 'max_attr_depth': depth, 'max_attr_width': width})
-		# correspondence: the invariants, evaluated by their Lean definitions on the whole loaded table
-		# (about a second per module on a 400-entry table: quick = every third fixed / corpus program and every 12th generated one;
-		# thorough = all fixed ones, every 12th generated one and two modules of the first real set)
-		if inv_ops and ((ld.kind in ('fixed', 'corpus') and (ctx.thorough or n_tables % 3 == 0)) or (ctx.thorough and ld.name == REAL_MODULES[0]) or (ld.kind != 'real' and n_tables % 12 == 0)):
-			tbl_ops = real_table_ops(db)
-			keep = slice(-2, None) if ld.kind == 'real' else slice(None)
-			inv_cases.append(({'kind': ld.kind, 'entries': len(db), 'name': ld.name}, tbl_ops + inv_ops[keep], ['ok'] * len(tbl_ops) + inv_real[keep]))
-		n_tables += 1
-		# correspondence: order
-		order_mods: list[str | None] = [*(own if ld.kind != 'real' else own[-3:])]
-		if ld.kind != 'real' or ld.name == REAL_MODULES[0]:
-			order_mods.append(None)
-		ops, real = real_order_ops(db, order_mods)
-		ord_cases.append(({'kind': ld.kind, 'entries': len(db), 'name': ld.name}, ops, real))
+		if time.time() > stop_at:
+			hist['deadline:program-skipped'] += 1
+			continue
+		try:
+			with time_limit(4 * MODULE_BUDGET):
+				db = ld.app.resolve(SymbolDB)
+				ser = ld.app.resolve(IReflectionSerializer)
+				mods = module_keys(db)
+				own = [m for m in mods if m in (ld.sources or {})] if ld.kind != 'real' else [m for m in mods if m not in done]
+				inv_ops: list[str] = []
+				inv_real: list[str] = []
+				for m in own:
+					done.add(m)
+					forests = [obs_forest(s.attrs) for _, s in db.items(m)]
+					depth = max((forest_depth(f) for f in forests), default=0)
+					width = max((forest_width(f) for f in forests), default=0)
+					# correspondence: serialize
+					ops, real = real_symbol_ops(db, ser, m)
+					if ops:
+						ser_cases.append(({'kind': ld.kind, 'depth': depth, 'width': width, 'name': f'{ld.name}:{m}'}, ops, real))
+					# search: the law
+					res.cases += 1
+					fnd = check_module(ld, m)
+					try:
+						inv = invariants_of(db, db.to_json(ser, m), m)
+						inv_ops.append(f't.inv\t{hx(m)}\t{class_ranks(db, m)}')
+						inv_real.append(f"Loaded={'true' if inv['Loaded'] else 'false'} SymOK={'true' if inv['SymOK'] else 'false'}")
+						order_ok = not any(f.key.startswith('order:') for f in fnd)
+						inv_hist[f"SymOK={int(inv['SymOK'])},Loaded={int(inv['Loaded'])},order-law={'holds' if order_ok else 'fails'}"] += 1
+						if inv['Loaded'] and not order_ok:
+							# C14.order says this cannot happen if model = code: report it as a broken tie (the law search reports the failing input)
+							inv_broken.append(f'{ld.name}:{m}')
+					except Exception as e:  # noqa: BLE001
+						inv_hist[f'invariants:raises:{exc_enum(e)}'] += 1
+					for f in fnd:
+						if f.key not in seen_keys:
+							seen_keys.add(f.key)
+							res.findings.append(f)
+					hist[f"{ld.kind}:depth={min(depth, 6)}{'+' if depth >= 6 else ''}:width{'>=10' if width >= 10 else '<10'}:{'+'.join(sorted({f.key for f in fnd})) or 'ok'}"] += 1
+					seen.add(f'{ld.name}:{m}:{len(mods[m])}')
+					if len(res.samples) < 2:
+						res.samples.append({'program': ld.name, 'module': m, 'symbols': len(mods[m]), 'max_attr_depth': depth, 'max_attr_width': width})
+				# correspondence: the invariants, evaluated by their Lean definitions on the whole loaded table
+				# (about a second per module on a 400-entry table: quick = every third fixed / corpus program and every 12th generated one;
+				# thorough = all fixed ones, every 12th generated one and two modules of the first real set)
+				if inv_ops and ((ld.kind in ('fixed', 'corpus') and (ctx.thorough or n_tables % 3 == 0)) or (ctx.thorough and ld.name == REAL_MODULES[0]) or (ld.kind != 'real' and n_tables % 12 == 0)):
+					tbl_ops = real_table_ops(db)
+					keep = slice(-2, None) if ld.kind == 'real' else slice(None)
+					inv_cases.append(({'kind': ld.kind, 'entries': len(db), 'name': ld.name}, tbl_ops + inv_ops[keep], ['ok'] * len(tbl_ops) + inv_real[keep]))
+				n_tables += 1
+				# correspondence: order
+				order_mods: list[str | None] = [*(own if ld.kind != 'real' else own[-3:])]
+				if ld.kind != 'real' or ld.name == REAL_MODULES[0]:
+					order_mods.append(None)
+				ops, real = real_order_ops(db, order_mods)
+				ord_cases.append(({'kind': ld.kind, 'entries': len(db), 'name': ld.name}, ops, real))
+		except CaseTimeout:
+			# the per-module budget of the law already reported a module that hangs; here the observations of the streams ran out of time
+			hist[f'program-timeout:{ld.kind}'] += 1
+			key = 'program:timeout'
+			if key not in seen_keys:
+				seen_keys.add(key)
+				res.findings.append(Finding(key=key, what=f'observing the table of {ld.name} (serialize / _order_keys / invariants) does not finish within {4 * MODULE_BUDGET}s', replay={'program': ld.name, 'sources': ld.sources, 'entry': ld.entry, 'module': ld.entry}))
 	res.distinct = len(seen)
 	res.histogram = {**dict(hist), **{f'load:{k}': v for k, v in stats.items()}, **{f'invariants:{k}': v for k, v in inv_hist.items()}}
 	s3 = common.correspond('invariants-real', inv_cases, FAMILY, classify=lambda d: d['kind'])
@@ -1719,6 +1818,10 @@ STATEMENTS = {
 	'C14.dsn_rt': 'ModuleDSN.parsed(ModuleDSN.full_joined(module, path)) = (module, path) and the module of the key is that module, for a non-empty module path when neither part contains # (guard checked on every real node by the search)',
 	'C14.import_attrs_counterexample': 'a serialize that writes no attributes for import entries restores an imported G[int] variable as G[T] (regression of a seeded mutation; the positive example beside it is an instance of rt)',
 	'C14.import_pop_counterexample': 'an import that consumes the attribute paths of its input leaves rows that import to other entries (regression of a seeded mutation; import_idem is the positive statement)',
+	'C14.export_history_independent': 'to_json is a function of the entries of the table alone (not of the completed marks; the model has no other state): same entries, same rows',
+	'C14.state_is_modelled': 'GENERATED from the AST of db.py / serializer.py on every run: SymbolDB has exactly __paths, __items, __completed; __paths and __items are written by the same methods; only __setitem__, on_complete, unload, import_json write fields; _order_keys_recursive changes only its two out-parameters; the serializer writes no field and changes no argument in place (a memo / cache / consumed argument breaks the translator or this theorem)',
+	'C14.export_paths_canonical': 'every key of an exported attrs dict is a non-empty path whose dotted spelling consists of canonical decimals and decodes to the path',
+	'C14.canonical_roundtrip': 'on canonical decimals (ASCII digits, no sign, no leading zero) int and str are inverse',
 	'C14.shipped_invariants': 'for every module of the GENERATED library table (translate/gen_symbol_tables.py, re-generated from the real SymbolDB on every run): Loaded and SymOK hold — decided by the kernel',
 	'C14.shipped_rt': 'for those shipped library modules, without hypotheses: whatever to_json exports is imported without error, restores every entry, completes the module, and a second import changes nothing',
 	'C14.order_fuel': 'fuel sufficiency for EVERY table (also self-/mutually-referring class entries): any fuel ≥ number of keys + 1 gives the same walk — resolving is duplicate-free and inside the keys (pigeonhole)',
@@ -1738,10 +1841,14 @@ STATEMENTS = {
 def run(ctx: Ctx) -> int:
 	translate_ok, translate_msg = True, ''
 	try:
-		from translate import gen_symbol_tables
-		ctx.generated_tables.extend(gen_symbol_tables.generate())
+		from translate import gen_symbol_state, gen_symbol_tables
+		with time_limit(240):
+			ctx.generated_tables.extend(gen_symbol_state.generate())
+			ctx.generated_tables.extend(gen_symbol_tables.generate())
+	except CaseTimeout:
+		translate_ok, translate_msg = False, 'translators gen_symbol_state / gen_symbol_tables: loading the library modules takes more than 240s'
 	except Exception as e:  # noqa: BLE001
-		translate_ok, translate_msg = False, f'translator gen_symbol_tables: {type(e).__name__}: {exc_text(e)}'
+		translate_ok, translate_msg = False, f'translator gen_symbol_state / gen_symbol_tables: {type(e).__name__}: {exc_text(e)}'
 	proof = common.prove(ctx, PROP, leanchecker=ctx.thorough)
 	with ctx.timed('correspondence'):
 		streams = [stream_expand_stub(ctx), stream_identity_stub(ctx), stream_dsn(ctx), stream_rebuild_stub(ctx), stream_order_stub(ctx), stream_table_stub(ctx)]
@@ -1758,7 +1865,7 @@ def run(ctx: Ctx) -> int:
 			'correspondence_only': 'loaded tables other than the generated library sub-table satisfy SymOK and Loaded (evaluated on every real table by a harness paraphrase and, for a sample, by the Lean definitions themselves in the compiled driver: stream invariants-real); non-prefix-closed dicts against entries with attributes (walk into a shared entry) stay outside the model',
 		},
 		assumptions=[
-			"index path components are what str(index) produces (ASCII digits, no sign, no leading zero); other spellings accepted by int() are never generated",
+			"the importer is modelled on canonical decimal path components only (C14.export_paths_canonical: the exporter writes nothing else; C14.canonical_roundtrip: int / str are inverse there); other spellings int() accepts ('01', '+1', ' 1', '1_0') occur in hand-written JSON only and are never generated",
 			'node module paths are non-empty and module path / full path contain no # (the guard of C14.dsn_rt; checked on every real node by the search, finding key dsn:not-round-trip)',
 			'entrypoints return the same node for the same DSN (known/isClassDef/isDecl/fullyname are functions of the DSN)',
 		],
